@@ -5,7 +5,7 @@ import Csverif.Driver.Monitor
    effect token  `<n>=<body>` with body
        `SC:<eid>:<cl>:<cr>` `SU:<eid>:<cl>:<cr>` `SD:<eid>`     entry row create / update / delete (claims: content tag or `~`)
        `K:<side>:<c>`  cursor write     `W:<side>`  walk marker write     `O`  other storage write
-       `P:<side>:<E|U>:<tag|~>`  provider write by Engine / User       `A:<side>:<idx>`  event handled
+       `P:<side>:<E|U>:<tag|~>`  provider write by Engine / User       `A:<side>:<idx>:<row eid|~>`  event handled
    `log | effects…`                                      → `ok <n>` | `reject <position> <reason>`          (`check`)
    `cut <k> | effects… | rows… | cursors… | walks…`      → `ok` | `reject …`   prefix `take k` is accepted, `consistentB`, and the abstract
                                                            storage equals what the real storage holds (rows `eid:cl:cr`, cursors `side:c`)
@@ -28,7 +28,7 @@ def decEffBody (t : String) : Option Eff :=
   | ["P", s, w, p] => do
     let eng ← (if w == "E" then some true else if w == "U" then some false else none)
     pure (.providerWrite (← decSide s) eng (← decOptNat p))
-  | ["A", s, i] => do pure (.eventApplied (← decSide s) (← i.toNat?))
+  | ["A", s, i, r] => do pure (.eventApplied (← decSide s) (← i.toNat?) (← decOptNat r))
   | _ => none
 
 def decEff (t : String) : Option NEff :=
